@@ -186,16 +186,7 @@ func (cl *Loader) load(file string) (config map[string]interface{}, err error) {
 				return nil, fmt.Errorf("load import error: %v", err)
 			}
 
-			// nested YAML maps are map[interface{}]interface{}, JSON and TOML give map[string]interface{}:
-			// merge one representation, so that files of different formats can import each other
-			for k, v := range config {
-				config[k] = stringKeyed(v)
-			}
-			for k, v := range raw {
-				raw[k] = stringKeyed(v)
-			}
-
-			err = mergo.Merge(&config, raw, mergo.WithOverride, mergo.WithAppendSlice, mergo.WithTypeCheck)
+			err = mergeMaps(&config, raw)
 			if err != nil {
 				return nil, err
 			}
@@ -203,6 +194,54 @@ func (cl *Loader) load(file string) (config map[string]interface{}, err error) {
 	}
 
 	return config, nil
+}
+
+// mergeMaps merges src into dst. Nested YAML maps are map[interface{}]interface{}, JSON and TOML give
+// map[string]interface{}; the two cannot be merged with each other. When string-keyed maps are involved,
+// both sides are converted to string keys first, so that files of different formats can import each other
+func mergeMaps(dst *map[string]interface{}, src map[string]interface{}) error {
+	if hasStringKeyedMaps(*dst) || hasStringKeyedMaps(src) {
+		for k, v := range *dst {
+			(*dst)[k] = stringKeyed(v)
+		}
+		for k, v := range src {
+			src[k] = stringKeyed(v)
+		}
+	}
+
+	return mergo.Merge(dst, src, mergo.WithOverride, mergo.WithAppendSlice, mergo.WithTypeCheck)
+}
+
+// hasStringKeyedMaps tells whether a decoded document contains nested map[string]interface{} values
+func hasStringKeyedMaps(m map[string]interface{}) bool {
+	var nested func(v interface{}) bool
+	nested = func(v interface{}) bool {
+		switch x := v.(type) {
+		case map[string]interface{}:
+			return true
+		case map[interface{}]interface{}:
+			for _, e := range x {
+				if nested(e) {
+					return true
+				}
+			}
+		case []interface{}:
+			for _, e := range x {
+				if nested(e) {
+					return true
+				}
+			}
+		case []map[string]interface{}:
+			return true
+		}
+		return false
+	}
+	for _, v := range m {
+		if nested(v) {
+			return true
+		}
+	}
+	return false
 }
 
 // stringKeyed converts the maps of a decoded YAML value to map[string]interface{}
@@ -240,7 +279,7 @@ func (cl *Loader) loadDir(dir string) (map[string]interface{}, error) {
 			return nil, fmt.Errorf("%s: %v", importFile, err)
 		}
 
-		err = mergo.Merge(&cm, cml, mergo.WithOverride, mergo.WithAppendSlice, mergo.WithTypeCheck)
+		err = mergeMaps(&cm, cml)
 		if err != nil {
 			return nil, fmt.Errorf("%s: %v", importFile, err)
 		}
